@@ -85,6 +85,18 @@ def run(ctx, deep=False):
                 sc.append(("adv", 8))
                 items.append(("steady", sc))
                 meta.append((st, cuts))
+                if rng.random() < 0.15:
+                    # the console closes the connection: its FIN arrives together with the last data segment, or a few loop turns / a
+                    # pause later; the client reconnects and the console sends the stream again - what is delivered (both copies) does
+                    # not depend on where the FIN sits
+                    tail = [("net", "accept")]
+                    for fin_gap in (0, 1, 3):
+                        sc2 = [op for op in sc[:-1]]
+                        while sc2 and sc2[-1][0] in ("turn", "adv"):
+                            sc2.pop()
+                        sc2 = sc2 + ([("turn", fin_gap)] if fin_gap else []) + [("peer", "eof"), ("adv", 24), ("peerbytes", st.hex()), ("adv", 8)]
+                        items.append(("steady", sc2))
+                        meta.append((st, ("fin", tuple(cuts), fin_gap)))
         results = sockcheck.run_scripts([s for _, s in items], gen=gen)
         ref = {}
         model = ctx.driver(["parse %d %s" % (gen, st.hex()) for st, c in meta if c is None]) if ctx.driver_ok else []
@@ -93,7 +105,7 @@ def run(ctx, deep=False):
         for (st, cuts), r, (_, script) in zip(meta, results, items):
             if "error" in r:
                 raise RuntimeError("harness failed: %s" % r["error"])
-            ctx.case((gen, st, tuple(cuts or [])), nontrivial=cuts is not None)
+            ctx.case((gen, st, tuple(cuts or [])) if not (cuts and cuts[0] == "fin") else (gen, st, cuts), nontrivial=cuts is not None)
             if cuts is None:
                 ref[st] = r["delivered"]
                 if model:
@@ -104,6 +116,12 @@ def run(ctx, deep=False):
                         if hm != r["delivered"][0]:
                             ctx.tie_broken("correspondence:parse", "model delivers %s, implementation %s" % (hm[:300], r["delivered"][0][:300]),
                                            stream=st.hex())
+                continue
+            if cuts and cuts[0] == "fin":
+                ctx.count("fin-gap:%d" % cuts[2])
+                if r["delivered"] != ref[st] + ref[st]:
+                    if worst is None or len(script) < len(worst[0]):
+                        worst = (script, st, list(cuts[1]) + ["FIN %d turns after the last segment, then the stream again on the new connection" % cuts[2]], r["delivered"], ref[st] + ref[st])
                 continue
             ctx.count("cuts:%d" % min(len(cuts), 5))
             if r["delivered"] != ref[st]:
